@@ -1002,6 +1002,16 @@ udp_pipe_recv(void *arg, nni_aio *aio)
 		nni_aio_finish_error(aio, NNG_ECLOSED);
 		return;
 	}
+	if (nni_list_empty(&p->rx_aios) && !nni_lmq_empty(&p->rx_mq)) {
+		// A message arrived while nobody was receiving; it is not
+		// looked at again until the next datagram comes in, so take
+		// it now.
+		nni_msg *msg;
+		nni_lmq_get(&p->rx_mq, &msg);
+		nni_mtx_unlock(&ep->mtx);
+		nni_aio_finish_msg(aio, msg);
+		return;
+	}
 	if (!nni_aio_start(aio, udp_pipe_recv_cancel, p)) {
 		nni_mtx_unlock(&ep->mtx);
 		return;
